@@ -157,6 +157,7 @@ func run(c *mon.Ctx) {
 	c.Floor("readpmt.earlier_unit_on_pmt_pid/other-section-unit", 500)
 	c.Floor("readpmt.earlier_unit_on_pmt_pid/truncated-larger-pmt", 500)
 	c.Floor("decode_again_after_removal", 2000)
+	c.Floor("readpmt.after_failed_readpmt", 500)
 
 	c.Stream("pmt", c.N(20000, 8000000), func(i int, r *gen.Rand) {
 		nStreams := -1
@@ -333,6 +334,23 @@ func run(c *mon.Ctx) {
 			st.Write(pk[:])
 		}
 		in := st.Bytes()
+		if i%8 == 5 {
+			// right after a ReadPMT that fails on a complete but unparsable unit (and one that runs out of
+			// stream): no state is carried over
+			// one stream whose only descriptor announces 0xF0 bytes and is cut off by the end of the section
+			bp0 := ref.PMT{Program: 1, CurrentNext: true, PCRPID: 0x1fff, Streams: []ref.ES{{Type: 0x1b, PID: 0x401, Descs: []ref.Desc{{Tag: 5, Body: r.Bytes(2 + r.Intn(6))}}}}}
+			bad := bp0.Section()
+			bad[18] = 0xf0
+			bp, _ := ref.Packetise(pid, r.Intn(16), append([]byte{0}, bad...), ref.RandChunks(r, 1+len(bad)/60), r.Bool())
+			var bs bytes.Buffer
+			for _, pk := range bp {
+				bs.Write(pk[:])
+			}
+			if _, berr := psi.ReadPMT(bytes.NewReader(bs.Bytes()), pid); berr != nil {
+				c.Count("readpmt.after_failed_readpmt")
+			}
+			psi.ReadPMT(bytes.NewReader(in[:188*r.Intn(1+len(in)/188)]), pid)
+		}
 		m2, err := psi.ReadPMT(bytes.NewReader(in), pid)
 		c.Eval(1)
 		var sizes []int
